@@ -80,3 +80,9 @@ func WPeeringGenerateToken(idx uint64, id, name, secret string) *FCmd {
 		Request: &pbpeering.SecretsWriteRequest_GenerateToken{GenerateToken: &pbpeering.SecretsWriteRequest_GenerateTokenRequest{EstablishmentSecret: secret}}}}
 	return NewFCmdProto("peering/generate-token", "peering", structs.PeeringWriteType, idx, req, fmt.Sprintf("peering generate-token %s id=%s", name, short(id)))
 }
+
+func WCASetConfig(idx uint64) *FCmd {
+	req := &structs.CARequest{Op: structs.CAOpSetConfig, Datacenter: fsmDC, Config: &structs.CAConfiguration{ClusterID: "11111111-2222-3333-4444-555555555555", Provider: "consul",
+		Config: map[string]interface{}{"LeafCertTTL": "72h"}}}
+	return NewFCmd("ca/set-config", "ca", structs.ConnectCARequestType, idx, req, "ca set-config provider=consul")
+}
